@@ -178,6 +178,8 @@ def main(argv=None):
             print(f"  selftest: {selftest['mutants_detected']}/{selftest['mutants_applied']} must-fire mutants detected, "
                   f"{selftest['benign_silent']}/{selftest['benign_applied']} benign variants silent, "
                   f"{selftest['stale']} stale")
+            if selftest.get("stale_ids"):
+                print(f"  selftest stale: {selftest['stale_ids']}")
             for m in selftest.get("misses", []):
                 print(f"  SELFTEST-MISS {m}")
     rc = 0
